@@ -206,3 +206,120 @@ pub open spec fn ke3_prk<D: Hash, KG: KeGroup>(ke2: Ke2Message<D, KG>, st: Ke1St
 pub open spec fn ke3_pre<D: Hash, KG: KeGroup>(context: Seq<u8>, id_u_framed: Seq<u8>, creq: Seq<u8>, id_s_framed: Seq<u8>, l2: Seq<u8>, ke2: Ke2Message<D, KG>) -> Seq<u8> {
     preamble_flat(context, id_u_framed, creq, id_s_framed, l2, ke2.server_nonce@, KG::ser_pk(ke2.server_e_pk.0))
 }
+
+// ---- suite length facts, bundled ---------------------------------------------------------------------------------------
+pub proof fn lemma_lens<CS: CipherSuite>()
+    ensures
+        wf_len::<<OprfHash<CS> as Digest>::OutputSize>(), 32 <= nh::<CS>() <= 255,
+        wf_len::<<CS::KeGroup as KeGroup>::PkLen>(), wf_len::<<CS::KeGroup as KeGroup>::SkLen>(), 0 < npk::<CS>() <= 255, 0 < nsk::<CS>() <= 255,
+        wf_len::<<OprfGroup<CS> as Group>::ElemLen>(), wf_len::<<OprfGroup<CS> as Group>::ScalarLen>(), 0 < noe::<CS>() <= 255, 0 < nok::<CS>() <= 255,
+{
+    <OprfHash<CS> as Digest>::lemma_hash_len();
+    <CS::KeGroup as KeGroup>::lemma_kg_lens();
+    <OprfGroup<CS> as Group>::lemma_group_lens();
+}
+
+// ---- effective identities (RFC 9807 4.1: an absent identity is that party's public key) -----------------------------------
+pub open spec fn eff_id(id: Option<&[u8]>, pk: Seq<u8>) -> Seq<u8> { match id { Some(c) => c@, None => pk } }
+pub open spec fn ids_fit(ids: Identifiers) -> bool {
+    (ids.client is Some ==> ids.client->0@.len() <= 65535) && (ids.server is Some ==> ids.server->0@.len() <= 65535)
+}
+/// the envelope a client with randomized password `rp` seals at `nonce` (RFC 9807 4.1.2 Store)
+pub open spec fn rfc_envelope_tag<CS: CipherSuite>(rp: Seq<u8>, nonce: Seq<u8>, server_s_pk: Seq<u8>, ids: Identifiers) -> Seq<u8> {
+    let pk_c = <CS::KeGroup as KeGroup>::ser_pk(<CS::KeGroup as KeGroup>::pk_of(rfc_client_sk::<CS>(rp, nonce)->Ok_0));
+    rfc_auth_tag::<CS>(rp, nonce, server_s_pk, eff_id(ids.server, server_s_pk), eff_id(ids.client, pk_c))
+}
+
+// ---- message layouts (RFC 9807 section 6.1 / 5.1) ------------------------------------------------------------------------------
+/// masked_response as transmitted: Npk + Nn + Nm bytes (the struct splits them into three arrays)
+pub open spec fn masked_ser<CS: CipherSuite>(m: MaskedResponse<CS>) -> Seq<u8> { m.nonce@ + m.hash@ + m.pk@ }
+/// offset of the AuthResponse (KE2) inside a serialized credential response
+pub open spec fn cr_off_ke2<CS: CipherSuite>() -> int { (noe::<CS>() + 32 + (32 + nh::<CS>() + npk::<CS>())) as int }
+
+// ---- client-side derivations (RFC 9807 5.2.3 / 6.3.2.2) ----------------------------------------------------------------------------
+/// the key-stretching instance in effect: the caller's, or the suite's default
+pub open spec fn ksf_eff<CS: CipherSuite>(ksf: Option<&CS::Ksf>) -> CS::Ksf { match ksf { Some(k) => *k, None => ksf_default_spec::<CS::Ksf>() } }
+/// randomized_password of (password, blind, evaluated element, KSF): Err when the password is unencodable or the KSF fails
+pub open spec fn rp_of<CS: CipherSuite>(pw: Seq<u8>, blind: <OprfGroup<CS> as Group>::Scalar, z: <OprfGroup<CS> as Group>::Elem, ksf: Option<&CS::Ksf>) -> Result<Seq<u8>, ()> {
+    if pw.len() > 65535 { Err(()) } else {
+        let y = rfc_oprf_output::<CS>(pw, blind, z);
+        match ksf_eff::<CS>(ksf).ksf_spec(y) { Ok(st) => Ok(rfc_randomized_pwd::<CS>(y, st)), Err(_) => Err(()) }
+    }
+}
+/// xor(credential_response_pad, masked_response), split as server_public_key || envelope_nonce || auth_tag
+pub open spec fn unmasked<CS: CipherSuite>(mk: Seq<u8>, mnonce: Seq<u8>, m: MaskedResponse<CS>) -> Seq<u8> { xor(rfc_pad::<CS>(mk, mnonce), masked_ser(m)) }
+pub open spec fn unmasked_pk<CS: CipherSuite>(mk: Seq<u8>, mnonce: Seq<u8>, m: MaskedResponse<CS>) -> Seq<u8> { unmasked::<CS>(mk, mnonce, m).subrange(0, npk::<CS>() as int) }
+pub open spec fn unmasked_nonce<CS: CipherSuite>(mk: Seq<u8>, mnonce: Seq<u8>, m: MaskedResponse<CS>) -> Seq<u8> { unmasked::<CS>(mk, mnonce, m).subrange(npk::<CS>() as int, npk::<CS>() as int + 32) }
+pub open spec fn unmasked_tag<CS: CipherSuite>(mk: Seq<u8>, mnonce: Seq<u8>, m: MaskedResponse<CS>) -> Seq<u8> {
+    unmasked::<CS>(mk, mnonce, m).subrange(npk::<CS>() as int + 32, npk::<CS>() as int + 32 + nh::<CS>() as int)
+}
+pub open spec fn cl_ctx_fit(c: Option<&[u8]>) -> bool { c is Some ==> c->0@.len() <= 65535 }
+pub open spec fn ctx_of(c: Option<&[u8]>) -> Seq<u8> { match c { Some(c) => c@, None => Seq::<u8>::empty() } }
+/// everything the client derives in its finish step, as functions of (state, password, response, parameters)
+pub open spec fn cl_rp<CS: CipherSuite>(st: ClientLogin<CS>, pw: Seq<u8>, resp: CredentialResponse<CS>, p: ClientLoginFinishParameters<CS>) -> Seq<u8> {
+    rp_of::<CS>(pw, st.oprf_client.blind_of(), resp.evaluation_element.v(), p.ksf)->Ok_0
+}
+pub open spec fn cl_env_nonce<CS: CipherSuite>(st: ClientLogin<CS>, pw: Seq<u8>, resp: CredentialResponse<CS>, p: ClientLoginFinishParameters<CS>) -> Seq<u8> {
+    unmasked_nonce::<CS>(rfc_masking_key::<CS>(cl_rp::<CS>(st, pw, resp, p)), resp.masking_nonce@, resp.masked_response)
+}
+pub open spec fn cl_server_pk<CS: CipherSuite>(st: ClientLogin<CS>, pw: Seq<u8>, resp: CredentialResponse<CS>, p: ClientLoginFinishParameters<CS>) -> Option<<CS::KeGroup as KeGroup>::Pk> {
+    <CS::KeGroup as KeGroup>::de_pk(unmasked_pk::<CS>(rfc_masking_key::<CS>(cl_rp::<CS>(st, pw, resp, p)), resp.masking_nonce@, resp.masked_response))
+}
+pub open spec fn cl_client_sk<CS: CipherSuite>(st: ClientLogin<CS>, pw: Seq<u8>, resp: CredentialResponse<CS>, p: ClientLoginFinishParameters<CS>) -> <CS::KeGroup as KeGroup>::Sk {
+    rfc_client_sk::<CS>(cl_rp::<CS>(st, pw, resp, p), cl_env_nonce::<CS>(st, pw, resp, p))->Ok_0
+}
+pub open spec fn cl_prk<CS: CipherSuite>(st: ClientLogin<CS>, pw: Seq<u8>, resp: CredentialResponse<CS>, p: ClientLoginFinishParameters<CS>) -> Seq<u8> {
+    let esk = st.ke1_state.client_e_sk.0;
+    rfc_prk::<OprfHash<CS>>(
+        <CS::KeGroup as KeGroup>::dh(resp.ke2_message.server_e_pk.0, esk),
+        <CS::KeGroup as KeGroup>::dh(cl_server_pk::<CS>(st, pw, resp, p)->0, esk),
+        <CS::KeGroup as KeGroup>::dh(resp.ke2_message.server_e_pk.0, cl_client_sk::<CS>(st, pw, resp, p)))
+}
+pub open spec fn cl_preamble<CS: CipherSuite>(st: ClientLogin<CS>, pw: Seq<u8>, resp: CredentialResponse<CS>, p: ClientLoginFinishParameters<CS>) -> Seq<u8> {
+    let spk_bytes = <CS::KeGroup as KeGroup>::ser_pk(cl_server_pk::<CS>(st, pw, resp, p)->0);
+    let cpk_bytes = <CS::KeGroup as KeGroup>::ser_pk(<CS::KeGroup as KeGroup>::pk_of(cl_client_sk::<CS>(st, pw, resp, p)));
+    let creq = <OprfGroup<CS> as Group>::ser_elem(st.credential_request.blinded_element.v()) + st.credential_request.ke1_message.client_nonce@
+        + <CS::KeGroup as KeGroup>::ser_pk(st.credential_request.ke1_message.client_e_pk.0);
+    let l2 = <OprfGroup<CS> as Group>::ser_elem(resp.evaluation_element.v()) + resp.masking_nonce@ + masked_ser(resp.masked_response);
+    rfc_preamble(ctx_of(p.context), eff_id(p.identifiers.client, cpk_bytes), creq, eff_id(p.identifiers.server, spk_bytes), l2,
+        resp.ke2_message.server_nonce@, <CS::KeGroup as KeGroup>::ser_pk(resp.ke2_message.server_e_pk.0))
+}
+/// the exact acceptance condition of the client's finish step
+pub open spec fn cl_accepts<CS: CipherSuite>(st: ClientLogin<CS>, pw: Seq<u8>, resp: CredentialResponse<CS>, p: ClientLoginFinishParameters<CS>) -> bool {
+    let rpr = rp_of::<CS>(pw, st.oprf_client.blind_of(), resp.evaluation_element.v(), p.ksf);
+    let rp = rpr->Ok_0;
+    let mk = rfc_masking_key::<CS>(rp);
+    let nonce = cl_env_nonce::<CS>(st, pw, resp, p);
+    &&& st.credential_request.blinded_element.v() != resp.evaluation_element.v()
+    &&& rpr is Ok
+    &&& cl_server_pk::<CS>(st, pw, resp, p) is Some
+    &&& rfc_client_sk::<CS>(rp, nonce) is Ok
+    &&& ids_fit(p.identifiers)
+    &&& cl_ctx_fit(p.context)
+    &&& unmasked_tag::<CS>(mk, resp.masking_nonce@, resp.masked_response)
+          == rfc_envelope_tag::<CS>(rp, nonce, <CS::KeGroup as KeGroup>::ser_pk(cl_server_pk::<CS>(st, pw, resp, p)->0), p.identifiers)
+    &&& resp.ke2_message.mac@ == rfc_server_mac::<OprfHash<CS>>(cl_prk::<CS>(st, pw, resp, p), cl_preamble::<CS>(st, pw, resp, p))
+}
+
+// ---- server login start (RFC 9807 6.3.2.1 / 6.4.4) -----------------------------------------------------------------------------------
+/// tape bytes consumed before the masking nonce: Nh for the fake masking key when there is no record
+pub open spec fn sls_off<CS: CipherSuite>(pf: Option<ServerRegistration<CS>>) -> nat { match pf { Some(_) => 0, None => nh::<CS>() } }
+/// the record in effect (RFC 9807 6.3.2.1 / section 10.9 "client enumeration"): the stored one, or the fake one —
+/// fake client public key, masking key = the next Nh tape bytes, all-zero envelope
+pub open spec fn zeros(n: nat) -> Seq<u8> { Seq::new(n, |i: int| 0u8) }
+pub open spec fn sls_mk<CS: CipherSuite>(pf: Option<ServerRegistration<CS>>, id: int, pos: nat) -> Seq<u8> {
+    match pf { Some(x) => x.0.masking_key@, None => tape(id, pos, nh::<CS>()) }
+}
+pub open spec fn sls_cpk<CS: CipherSuite, S: SecretKey<CS::KeGroup>>(setup: ServerSetup<CS, S>, pf: Option<ServerRegistration<CS>>) -> <CS::KeGroup as KeGroup>::Pk {
+    match pf { Some(x) => x.0.client_s_pk.0, None => setup.fake_keypair.pk.0 }
+}
+pub open spec fn sls_env<CS: CipherSuite>(pf: Option<ServerRegistration<CS>>) -> Seq<u8> {
+    match pf { Some(x) => x.0.envelope.nonce@ + x.0.envelope.hmac@, None => zeros(32 + nh::<CS>()) }
+}
+pub broadcast proof fn lemma_all_zero_concat(a: Seq<u8>, b: Seq<u8>)
+    requires all_zero(a), all_zero(b)
+    ensures #[trigger] (a + b) == zeros(a.len() + b.len())
+{ assert((a + b) =~= zeros(a.len() + b.len())); }
+pub open spec fn sls_inputs_ok<CS: CipherSuite, S: SecretKey<CS::KeGroup>>(setup: ServerSetup<CS, S>, pf: Option<ServerRegistration<CS>>, cred_id: Seq<u8>, p: ServerLoginStartParameters) -> bool {
+    cl_ctx_fit(p.context) && ids_fit(p.identifiers) && rfc_oprf_key::<CS>(setup.oprf_seed@, cred_id) is Ok
+}
